@@ -412,7 +412,13 @@ class ExprMixin:
                 return cs.derived[name](self, st, recv)
             if name in cs.fields or (cs.dynamic and (cs.name, name) in st.heap) or (str(recv.term), name) in st.pyheap:
                 return self.read_field(st, recv, name)
-            if self.find_method(cs, name) is not None:
+            m, kind = self.find_method_ex(cs, name)
+            if m is not None and kind == "property" and not callable(m):
+                # a @property of the real class under contract: reading the attribute applies the getter's contract
+                from . import api
+
+                return self.call_contract(api.CONTRACTS[m], [recv], {}, st, node, implicit=1)
+            if m is not None:
                 return Val.obj(BoundMethod(recv, name))
             if cs.repo:
                 # class-level constant of the real class (e.g. MAX_GLYPH_NAME_LENGTH)
@@ -584,6 +590,30 @@ class ExprMixin:
 
     def e_Starred(self, node, st):
         raise Unsupported("starred expression", node)
+
+    # ---- generators: the function is executed as "append every yielded value to a hidden list, return the list" ------
+    def e_Yield(self, node, st):
+        from . import models
+
+        if "__yield__" not in st.env or self.spec_mode:
+            raise Unsupported("yield outside a generator function under contract (returns=List(..))", node)
+        v = self.eval(node.value, st) if node.value is not None else Val.const(None)
+        nv, _ = models.mutate(self, st, st.env["__yield__"], "append", [v], {}, node)
+        st.env["__yield__"] = coerce(nv, self.c.returns)
+        return Val.const(None)  # nothing is ever sent into the generator
+
+    def e_YieldFrom(self, node, st):
+        from . import models
+
+        if "__yield__" not in st.env or self.spec_mode:
+            raise Unsupported("yield from outside a generator function under contract", node)
+        v = models.materialize(self, self.eval(node.value, st))
+        info = models.carrier_info(v)
+        if info is not None:
+            v = models.carrier_to_list(self, st, info, node)
+        nv, _ = models.mutate(self, st, st.env["__yield__"], "extend", [v], {}, node)
+        st.env["__yield__"] = coerce(nv, self.c.returns)
+        return Val.const(None)
 
     def e_NamedExpr(self, node, st):
         v = self.eval(node.value, st)
